@@ -987,7 +987,16 @@ class Interp:
                 r = a.cls is b.cls and a.name == b.name
                 r = r if isinstance(op, ast.Is) else not r
                 return ("t",) if r else ("f",)
+            if isinstance(a, ClassV) and isinstance(b, ClassV):
+                # class objects are singletons: identity of two known classes is decided, not forked on
+                r = a.cls is b.cls
+                r = r if isinstance(op, ast.Is) else not r
+                return ("t",) if r else ("f",)
             return ("opaque", "is")
+        if isinstance(a, ClassV) and isinstance(b, ClassV) and isinstance(op, (ast.Eq, ast.NotEq)):
+            r = a.cls is b.cls
+            r = r if isinstance(op, ast.Eq) else not r
+            return ("t",) if r else ("f",)
         if isinstance(a, IntV) and isinstance(b, IntV):
             table = {ast.Lt: lt, ast.LtE: le, ast.Gt: gt, ast.GtE: ge, ast.Eq: eq}
             if type(op) in table:
